@@ -880,4 +880,40 @@ example : (([.createBucket b1, .put b1 kA [1], .put b1 kAB [2], .put b1 [46, 46,
 example : ((handle id (handle id (handle id FsS.empty (.createBucket b1)).1 (.put b1 kA [1])).1 (.put b1 kAB [2])).2
     = .err .InvalidArgument) := by decide
 
+
+/-! ### the single-bucket backend: the same store with one bucket -/
+
+/-- the store a single-bucket backend starts with is related to the reference store that holds
+    just that (empty) bucket, so `fs_step` / `fs_run_refines` speak about it as well: its object
+    methods are the multi-bucket ones behind the test `bucketName != db.name` (Model/FsBackend,
+    `Single`), and an absent bucket is NoSuchBucket on both sides -/
+theorem single_init (name : Bytes) (hv : validateBucketName name = true) :
+    InvS (FsB.Single.init name) ∧ Rel (FsB.Single.init name) [(name, [])] := by
+  constructor
+  · constructor
+    · intro q hq; simp [FsB.Single.init] at hq; subst hq; exact hv
+    · intro q hq; simp [FsB.Single.init] at hq; subst hq
+      exact ⟨inv_empty, by intro f hf; simp [Tree.empty] at hf⟩
+  · constructor
+    · intro b; simp [FsB.Single.init, SMap.find]; split <;> rfl
+    · rfl
+    · intro b bk objs h1 h2
+      simp only [FsB.Single.init, SMap.find] at h1 h2
+      split at h1
+      · cases h1
+        rename_i he
+        simp [he] at h2
+        subst h2
+        intro k; rw [getKey_empty]; rfl
+      · cases h1
+    · exact ⟨by simp [GFS.SMap.Sorted], by simp [GFS.SMap.Sorted, FsB.Single.init]⟩
+
+theorem single_put_eq (md5 : Bytes → Bytes) (name : Bytes) (s : FsS) (k : Bytes) (md : Meta) (body : Bytes) :
+    FsB.Single.putObject md5 name s name k md body = FsB.putObject md5 s name k md body := by
+  simp [FsB.Single.putObject]
+
+theorem single_get_eq (md5 : Bytes → Bytes) (name : Bytes) (s : FsS) (k : Bytes) :
+    FsB.Single.getObject md5 name s name k = FsB.getObject md5 s name k := by
+  simp [FsB.Single.getObject]
+
 end GFS.Props.FsR
